@@ -197,8 +197,8 @@ class Oracle:
             piv = self.rng.getrandbits(1)
             assoc = self.rng.choice([0, 1, 2])
             v = self.vals("designation_descriptor", {"designator_type": ty, "designator_length": len(des), "piv": piv, "association": assoc})
-            if not piv:
-                v["protocol_identifier"] = 0      # reserved when PIV is zero
+            if not (piv and assoc in (1, 2)):
+                v["protocol_identifier"] = 0      # reserved unless PIV is one and the association is a target port / device
             e = self.report("designation_descriptor", v)
             if not (piv and assoc in (1, 2)):
                 del e["protocol_identifier"]
@@ -233,6 +233,7 @@ class Oracle:
         return data, e
 
     def modesense(self, ten, with_block_descriptors=True):
+        """MODE SENSE(6|10) parameter data: header, optional block descriptors, one mode page"""
         page, pe = self.mode_page()
         nbd = self.rng.choice([0, 0, 1, 2] + ([33] if ten else [])) if with_block_descriptors else 0
         longlba = self.rng.getrandbits(1) if ten else 0
